@@ -931,7 +931,14 @@ func whatOf(ops ...string) string {
 			p = append(p, "cancelled("+strings.SplitN(o, "@", 2)[0]+")")
 		}
 	}
-	return strings.Join(p, "+")
+	sort.Strings(p) // the class does not depend on the order or multiplicity of the edits
+	q := p[:0]
+	for i, x := range p {
+		if i == 0 || x != p[i-1] {
+			q = append(q, x)
+		}
+	}
+	return strings.Join(q, "+")
 }
 
 func safeApply(e *edit, d *docSpec) (ok bool) {
